@@ -29,6 +29,7 @@ RULE = (
     "lookup compared with the generator's definition line; G-SRC texts: no-crash sweep at every offset; non-trivial = offset with a "
     "non-empty prefix and >= 1 proposal, or a definition lookup on a token whose binding lives in another module; distinct by "
     "(case hash, offset, variant)"
+    "; texts include regular block structures with comments at drawn indentations; completeness is also asked with later_locals=False for names imported above the cursor"
 )
 ASSUMPTIONS = [
     "definition line conventions: imports are transparent (a from-imported or dotted name leads to the def/class/first assignment "
